@@ -125,6 +125,9 @@ def world_job(job):
             res["interleavings"].add(R.digest(sh["interleaving"])[:16])
             for k, v in sh.get("faults", {}).items():
                 res["faults"][k] = res["faults"].get(k, 0) + v
+            nc = sum(1 for e in hist if e["k"] == "cancel")
+            if nc:
+                res["faults"]["caller_task_cancelled"] = res["faults"].get("caller_task_cancelled", 0) + nc
             ne = sum(1 for e in hist if e["k"] == "request_object_edited_in_place")
             if ne:
                 res["faults"]["caller_edits_request_object_in_place"] = res["faults"].get("caller_edits_request_object_in_place", 0) + ne
